@@ -23,6 +23,10 @@ const SHAPES: &[&str] = &["rect", "circle", "ellipse", "line"];
 const BOXES: &[(f64, f64, f64, f64)] = &[(0., 0., 10., 10.), (-7.25, 3., 20., 4.), (2.5, -4., 3., 12.5), (100., 50., 1., 1.)];
 const SQUARES: &[(f64, f64, f64, f64)] = &[(0., 0., 10., 10.), (-3., -3., 6., 6.), (2.5, -4., 12.5, 12.5), (100., 50., 1., 1.)];
 
+/// thorough tier only: more origins and aspect ratios (all exactly representable in f32)
+const DEEP_BOXES: &[(f64, f64, f64, f64)] = &[(-100.5, -200.25, 0.5, 300.), (1000., -1000., 250., 125.), (0.125, 0.375, 7.75, 2.625), (-1., -1., 2., 2.), (33., 0., 64., 0.25), (0., -64., 0.75, 48.)];
+const DEEP_SQUARES: &[(f64, f64, f64, f64)] = &[(-100.5, -200.25, 0.5, 0.5), (1000., -1000., 250., 250.), (0.125, 0.375, 7.75, 7.75), (-1., -1., 2., 2.), (33., 0., 64., 64.), (0., -64., 0.75, 0.75)];
+
 const GEOM_ATTRS: &[&str] = &[
     "x", "y", "x1", "y1", "x2", "y2", "cx", "cy", "r", "rx", "ry", "width", "height", "xy", "cxy", "xy1", "xy2", "wh", "rxy", "dx", "dy", "dxy", "dw", "dh", "dwh", "xy-loc",
 ];
@@ -337,21 +341,23 @@ fn check_delta(shape: &str, b: (f64, f64, f64, f64), form: usize) -> CaseResult 
 pub fn run(tier: Tier) -> i32 {
     let mut rep = Report::new("C11", tier, "exploration");
     // the quick tier explores what used to be the thorough space (it takes seconds); `deep` adds the wider bounds
-    #[allow(unused_variables)]
     let deep = tier == Tier::Thorough;
     let tier = Tier::Thorough;
     let mut bases = Vec::new();
     for shape in SHAPES {
-        let boxes = if *shape == "circle" { SQUARES } else { BOXES };
+        let mut boxes: Vec<(f64, f64, f64, f64)> = (if *shape == "circle" { SQUARES } else { BOXES }).to_vec();
+        if deep {
+            boxes.extend_from_slice(if *shape == "circle" { DEEP_SQUARES } else { DEEP_BOXES });
+        }
         for xp in PAIRS {
             for yp in PAIRS {
-                for b in boxes {
+                for b in &boxes {
                     bases.push((*shape, *xp, *yp, *b));
                 }
             }
         }
     }
-    rep.set("rule", json!("Enumerated completely in both tiers: shape in {rect, circle, ellipse, line} x per-axis constraint pair (6 of {start, end, centre, length}) for x and for y x 4 boxes (negative/fractional origin, unequal sides; squares for circle) x every spelling: alternative attribute names (x/x1, width/rx, r), both attribute orders, shorthand xy/xy1/xy2/cxy/wh/rxy with separators {space, comma, comma-space, two spaces} and single-value form where both values coincide, two shorthands at once. Oracle: the output element carries exactly its native geometry for the box (3-decimal tolerance), no shorthand or foreign geometry attribute, and all spellings of one case give identical attributes. Second leg: dx/dy vs dxy and dw/dh vs dwh (absolute, percent, one value, two values, separators) against the expected moved/resized box. Non-trivial = all spellings accepted and equal."));
+    rep.set("rule", json!("Enumerated completely: shape in {rect, circle, ellipse, line} x per-axis constraint pair (6 of {start, end, centre, length}) for x and for y x 4 boxes (negative/fractional origin, unequal sides; squares for circle; the thorough tier adds 6 more boxes: large and small extents, extreme aspect ratios, far origins) x every spelling: alternative attribute names (x/x1, width/rx, r), both attribute orders, shorthand xy/xy1/xy2/cxy/wh/rxy with separators {space, comma, comma-space, two spaces} and single-value form where both values coincide, two shorthands at once. Oracle: the output element carries exactly its native geometry for the box (3-decimal tolerance), no shorthand or foreign geometry attribute, and all spellings of one case give identical attributes. Second leg: dx/dy vs dxy and dw/dh vs dwh (absolute, percent, one value, two values, separators) against the expected moved/resized box. Non-trivial = all spellings accepted and equal."));
     rep.set("also_later", json!("Rounds 4-5 added pairs: a circle given one length and a position on the other axis, dw / dh on circles / ellipses sized in the other spelling, relative radii in the other spelling, two references separated by a comma, defaults of another kind (open)."));
     rep.set("also", json!("Also 11 equivalence pairs: rxy on rect / circle / ellipse against rx + ry (and r), dx / dy / dxy on shapes whose position is defaulted, dwh on a rect whose extent is given by start + end or centre + length."));
     let st = run_space(bases.len(), |i| check_base(bases[i].0, bases[i].1, bases[i].2, bases[i].3));
@@ -360,8 +366,11 @@ pub fn run(tier: Tier) -> i32 {
     rep.absorb("constraint-pairs", st);
     let mut deltas = Vec::new();
     for shape in SHAPES {
-        let boxes = if *shape == "circle" { SQUARES } else { BOXES };
-        for b in boxes {
+        let mut boxes: Vec<(f64, f64, f64, f64)> = (if *shape == "circle" { SQUARES } else { BOXES }).to_vec();
+        if deep {
+            boxes.extend_from_slice(if *shape == "circle" { DEEP_SQUARES } else { DEEP_BOXES });
+        }
+        for b in &boxes {
             for form in 0..5 {
                 deltas.push((*shape, *b, form));
             }
